@@ -1,5 +1,6 @@
 import FuModel.Proofs.ExecBatch
 import FuModel.Proofs.ExecLossless
+import FuModel.Proofs.ExecWalk
 
 /-!
 # C08 — property theorems (proofs in `Proofs/ExecBatch.lean`, `Proofs/ExecLossless.lean`)
@@ -14,14 +15,52 @@ import FuModel.Proofs.ExecLossless
   the walk dispatch the open batch: the sequence is unchanged and nothing is left waiting — "every
   pending invocation has run by the time find exits".
 
-Hence over any run the delivered paths are, in order, exactly those on which the action was
-evaluated (minus paths too long for any command line, which set the status).  That the action is
-evaluated on the right entries in the right order is C01/C02/C03; the glue between the two (the
-matcher tree and the walk call `sem` and the two flushes at the places `process_dir` does) is carried
-by the correspondence runs.
+* `C08_whole_walk` — the lift over a whole starting point: for an arbitrary expression whose only
+  command-running primary is the `+` action, `process_dir` over the real walk (walkdir's iterator,
+  the depth guard, `finished_dir` at every change of directory, `finished` at the end) delivers what
+  was handed over before followed by a subsequence, in visit order, of the entries of the starting
+  point — nothing twice, nothing foreign, nothing left waiting.  (Weighted relation lemma over
+  `M.eval`, `relW_M`; subsequence lemma over the traversal, `refNode_sub`; refinement theorems of C02.)
+
+*Which* entries reach the action (those for which the tests before it are true) is C01 for this
+primary; with several command-running primaries in one expression, and for the working directories
+of `-execdir` batches, the comparison is carried by the correspondence runs.
 -/
 namespace FuModel.Find.Run
 open FuModel.Find.Walk
+
+/-- the lift of the step theorems over a whole starting point (statement and proof:
+    `whole_walk_lossless` in `Proofs/ExecWalk.lean`) -/
+theorem C08_whole_walk (id : Nat) (dir : Bool) (cmd : Bytes) (fixed : List Bytes)
+    (c : Config) (m : FuModel.Find.Expr.M Prim) (start : Bytes) (root : Node Attr) (g : GS)
+    (hall : m.AllP (Sole id dir cmd fixed)) (hone : m.weight wT ≤ 1) (hmem : M.multis m ≠ [])
+    (hb : ∃ nb, newBatch g.budget cmd fixed = some nb)
+    (hwalk : ((refCfg c).depthFirst = false ∧ PruneOk (refCfg c) (evalEntry m start)) ∨
+             ((refCfg c).depthFirst = true ∧ ¬ HRootLink (refCfg c) (if c.sorted then sortNode root else root))) :
+    let n := if c.sorted then sortNode root else root
+    let r := processDir c m start (some root) g
+    ∃ L, delivered (cmd :: fixed) r.gs = handed (cmd :: fixed) id g ++ L ∧
+      L.Sublist ((visitsN (refCfg c) [] 0 n).map fun v => execPath dir (pathOf start v.ent.rpath)) ∧
+      pendingOf id r.gs = [] :=
+  whole_walk_lossless id dir cmd fixed c m start root g hall hone hmem hb hwalk
+
+/-- non-vacuity of `C08_whole_walk`: `find t -depth -name a -exec c {} +` meets the hypotheses -/
+example :
+    let m : FuModel.Find.Expr.M Prim := .and [.prim (.name [97]), .prim (.execMulti 0 false true [99] [])]
+    let c : Config := { depthFirst := true }
+    let root : Node Attr := .dir [116] false true { lty := 'd', sty := 'd' } [.leaf [97] .plain { lty := 'f', sty := 'f' }]
+    m.AllP (Sole 0 false [99] []) ∧ m.weight wT ≤ 1 ∧ M.multis m ≠ [] ∧
+      (∃ nb, newBatch ({} : GS).budget [99] [] = some nb) ∧
+      ((refCfg c).depthFirst = true ∧ ¬ HRootLink (refCfg c) (if c.sorted then sortNode root else root)) := by
+  intro m c root
+  refine ⟨by simp [m, FuModel.Find.Expr.M.AllP, FuModel.Find.Expr.M.AllP.AllPs, Sole, quiet], by decide, by decide,
+    ?_, rfl, ?_⟩
+  · have h : (newBatch ({} : GS).budget [99] []).isSome = true := by decide
+    cases hn : newBatch ({} : GS).budget [99] [] with
+    | some nb => exact ⟨nb, rfl⟩
+    | none => rw [hn] at h; cases h
+  · rintro ⟨h, _⟩
+    cases h
 
 /-- non-vacuity: two paths handed to a `+` action and the final flush -/
 example :
